@@ -48,7 +48,13 @@ pub fn calc_cumulative_capital_gains(
     let mut capital_gains_total = Decimal::ZERO;
     let mut cap_gains_year_totals = HashMap::<i32, Decimal>::new();
 
-    for gains in sec_gains.values() {
+    // Sum in a fixed order. Decimal addition rounds (and picks its scale)
+    // depending on the order of the operands, so iterating the maps directly
+    // would let the last digits of the totals change from run to run.
+    let mut secs: Vec<&Security> = sec_gains.keys().collect();
+    secs.sort();
+    for sec in secs {
+        let gains = &sec_gains[sec];
         capital_gains_total += gains.capital_gains_total;
         for (year, year_gains) in &gains.capital_gains_years_totals {
             let year_total_so_far =
